@@ -461,6 +461,8 @@ Record Inv (s : st) : Prop := {
   m_wait_seen : forall c, In c (waiting s) -> mem_z c (seen s) = true;
   m_wait_map : forall c, In c (waiting s) -> ~ In c (tagmap s);
   m_wait_idle : cst s = Idle -> opn s = None -> waiting s = [];
+  m_closed_dl : cst s = Closed -> opn s = None -> ping_dl s = None;
+  m_woken_dl : forall b, opn s = Some (OWoken b) -> ping_dl s = None;
 }.
 
 Lemma inv_init t0 : Inv (init t0).
@@ -518,7 +520,8 @@ Proof.
   pose proof (m_closed _ I) as I4; pose proof (m_idle _ I) as I5; pose proof (m_opn_pl _ I) as I6;
   pose proof (m_wokenf _ I) as I7; pose proof (m_pre _ I) as I8; pose proof (m_dl _ I) as I9; pose proof (m_lp _ I) as I10;
   pose proof (m_sleep _ I) as I11; pose proof (m_open_pl _ I) as I12; pose proof (m_wait_nodup _ I) as I13;
-  pose proof (m_wait_seen _ I) as I14; pose proof (m_wait_map _ I) as I15; pose proof (m_wait_idle _ I) as I16. clear I.
+  pose proof (m_wait_seen _ I) as I14; pose proof (m_wait_map _ I) as I15; pose proof (m_wait_idle _ I) as I16;
+  pose proof (m_closed_dl _ I) as I17; pose proof (m_woken_dl _ I) as I18. clear I.
   destruct s as [nw ch op tm sn ex q sd rc pd pa dl pls lw lpg wt]; cbn in *.
   destruct l; cbn in H; unfold shutdown, send_ping, ar_fail, wake_fail, tick_ok in H; cbn in H; brk.
   all: constructor; cbn; intros; first [assumption | solve [auto] | fin].
@@ -532,6 +535,7 @@ Proof.
   all: subst; rewrite ?Z.eqb_refl; cbn; try reflexivity; try assumption.
   all: try (apply orb_true_iff; right); auto.
   all: try (apply I3; assumption); try (apply I2; assumption).
+  all: try (destruct dl as [d0|]; [destruct (I9 d0 eq_refl) as (X9 & _); discriminate | reflexivity]).
   all: try match goal with H : In _ (remove_z _ _) |- _ => apply remove_z_in in H; destruct H as [H ?] end.
   all: try (apply nodup_snoc; [assumption | intros X;
               first [apply I14 in X; congruence | eapply I15; [|exact X]; apply (proj1 (mem_z_true _ _)); assumption]]).
